@@ -309,6 +309,14 @@ class _Inliner:
                     x._from = g             # provenance: which helper this node was pasted from (innermost)
         new = _fold(new)
         new = self.expand(new, depth - 1, scope + [g])
+        if rexpr is not None and depth - 1 > 0:
+            # helper calls nested in the returned expression
+            tmp = ast.Return(value=rexpr)
+            ast.fix_missing_locations(ast.copy_location(tmp, call))
+            pre2, tmp = self.hoist(tmp, depth - 1, scope + [g])
+            if pre2:
+                new = new + self.expand(pre2, depth - 1, scope + [g])
+            rexpr = tmp.value
         if rexpr is not None:
             # the returned expression may itself be an inlinable call
             g2 = self.callee(rexpr, scope + [g]) if depth - 1 > 0 else None
